@@ -84,3 +84,8 @@ claim("C05", "model_checking",
       "numpy accuracy; powers compared on the natural scale of each solution",
       "bounded-exhaustive enumeration on the implementation with invariants on every solution",
       "DESIGN.md section 4 C05")
+claim("C13", "model_checking",
+      "Explicit exploration of drawing programs built with the real Schematic/Elements classes: every filling of the 2x2 lattice edges with wires, resistors and DC sources (both directions, both reversal flags) with several ground positions in several insertion orders, every 3x2-lattice drawing with up to three items (including wires spanning two cells and a node label), every symbol kind of the statement in both directions, all four rotations, both reversal flags and degree/sine options in two contexts, and for every ground-at-origin drawing the metamorphic generators (rotations, translations incl. a rounding boundary, drawing units, wire splitting, chained placement, another hash seed). Each translation is compared with a union-find reference (bijection on node classes, labels and ground, component kinds and values, electrical equality of sources) and its solution with the reference solution.",
+      "schemdraw geometry; drawings with two names on one node are not driven; at/to placement is not driven (plain schemdraw source symbols ignore .to())",
+      "explicit-state exploration of placement programs on the implementation with a union-find reference model",
+      "DESIGN.md section 4 C13")
